@@ -19,15 +19,18 @@ inductive Result
   | valid (isBlocked : Bool) (enc : Enc)
   deriving Repr, DecidableEq
 
-/-- `block_1014_check` on the (at most 2500-byte) sample: trailer of the first block, and of the
-    second block when the sample reaches it; a sample of 1015..2027 bytes is "not blocked". -/
-def block1014Check (s : Bytes) : Bool :=
-  if s.length < 1014 then false
-  else if (s.drop 1012).take 2 == PP then
-    if s.length = 1014 then true
-    else if 2028 ≤ s.length ∧ (s.drop 2026).take 2 == PP then true
+/-- `block_1014_check` on the (at most 2500-byte) sample, for payload size `P` (1012 in the code):
+    trailer of the first block, and of the second block when the sample reaches it; a sample
+    longer than one block but shorter than two is "not blocked". -/
+def blockCheck (P : Nat) (s : Bytes) : Bool :=
+  if s.length < P + 2 then false
+  else if (s.drop P).take 2 == PP then
+    if s.length = P + 2 then true
+    else if 2 * (P + 2) ≤ s.length ∧ (s.drop (P + 2 + P)).take 2 == PP then true
     else false
   else false
+
+def block1014Check (s : Bytes) : Bool := blockCheck 1012 s
 
 /-- `bitmap_check`: first bit (2..128) flagged in the bitmap that has no configuration -/
 def bitmapCheck (configured : List Nat) (bitmap : Bytes) : Option Nat :=
@@ -41,14 +44,19 @@ def encodingCheck (latin1Numeric cp037Numeric : List Nat) (mti : Bytes) : Enc :=
   else if allNumeric cp037Numeric mti then .cp037
   else .unknown
 
-/-- `ipm_info` -/
-def ipmInfo (configured : List Nat) (maxLen : Nat) (latin1Numeric cp037Numeric : List Nat) (file : Bytes) : Result :=
-  let s := file.take 2500
+/-- `ipm_info`, with the sample size and payload size as parameters (2500 and 1012 in the code) -/
+def ipmInfoP (S P : Nat) (configured : List Nat) (maxLen : Nat) (latin1Numeric cp037Numeric : List Nat) (file : Bytes) :
+    Result :=
+  let s := file.take S
   if s.length < 24 then .invalid .tooShort
   else if maxLen < be32dec (s.take 4) then .invalid .firstLengthTooLong
   else
     match bitmapCheck configured ((s.drop 8).take 16) with
     | some b => .invalid (.bitmapUsesUnconfigured b)
-    | none => .valid (block1014Check s) (encodingCheck latin1Numeric cp037Numeric ((s.drop 4).take 4))
+    | none => .valid (blockCheck P s) (encodingCheck latin1Numeric cp037Numeric ((s.drop 4).take 4))
+
+/-- `ipm_info` -/
+def ipmInfo (configured : List Nat) (maxLen : Nat) (latin1Numeric cp037Numeric : List Nat) (file : Bytes) : Result :=
+  ipmInfoP 2500 1012 configured maxLen latin1Numeric cp037Numeric file
 
 end Cardutil.Info
